@@ -785,6 +785,17 @@ func (e *Env) call(n *ast.CallExpr) *Val {
 			fail("same of composite")
 		}
 		return boolVal(eq(nv.Term, ov.Term))
+	case "coupled":
+		// coupled(a, b): the two sides of a lockstep product hold the same value: the same number, flag or
+		// string header; for error values, both nil or both non-nil (only that is ever observed)
+		nv, ov := arg(0), arg(1)
+		if nv.Term == "" || ov.Term == "" {
+			fail("coupled of composite")
+		}
+		if sortOf(nv.T) == "Iface" {
+			return boolVal(eq(eq(app("itag", nv.Term), "0"), eq(app("itag", ov.Term), "0")))
+		}
+		return boolVal(eq(nv.Term, ov.Term))
 	case "sameobject":
 		nv, ov := arg(0), arg(1)
 		return boolVal(eq(app("lref", nv.Term), app("lref", ov.Term)))
